@@ -1594,6 +1594,15 @@ vharnesses! {
     // modify_order with an ARBITRARY new price (isolates the finding C12.modify_offgrid_price)
     #[cfg_attr(kani, kani::unwind(4))]
     fn c12_modify_any_price_tick3_m2() { step_modify::<3, 2>(2, GenCfg { tick: 3, ..OFF }, G_GRID, 2, true) }
+    // ticks that do NOT divide 2^32-1 (= 3*5*17*257*65537): a bid's queue key stores MAX - price, which is then off the grid
+    #[cfg_attr(kani, kani::unwind(4))]
+    fn c12_modify_any_price_tick2_m2() { step_modify::<3, 2>(2, GenCfg { tick: 2, ..OFF }, G_GRID, 2, true) }
+    #[cfg_attr(kani, kani::unwind(4))]
+    fn c12_modify_any_price_tick8_m2() { step_modify::<3, 2>(2, GenCfg { tick: 8, ..OFF }, G_GRID, 2, true) }
+    #[cfg_attr(kani, kani::unwind(4))]
+    fn c12_modify_any_price_tick10_m2() { step_modify::<3, 2>(2, GenCfg { tick: 10, ..OFF }, G_GRID, 2, true) }
+    #[cfg_attr(kani, kani::unwind(4))]
+    fn c12_modify_any_price_tick7_on_m2() { step_modify::<3, 2>(2, GenCfg { tick: 7, ..CFG }, G_GRID, 0, true) }
 
     // ---- thorough tier: 3-entry tables (<= 3 resting orders per side)
     #[cfg_attr(kani, kani::unwind(5))]
